@@ -184,6 +184,35 @@ fn gen_excludes(rng: &mut Rng, names: &[String]) -> Vec<String> {
   v
 }
 
+// a name that matches the pattern: '*' becomes a random short string, '?' a random character
+fn instantiate(pat: &str, rng: &mut Rng) -> String {
+  let fill: Vec<char> = "abK10 x-_2é".chars().collect();
+  let mut s = String::new();
+  for c in pat.chars() {
+    match c { '*' => { for _ in 0..rng.below(4) { s.push(*rng.pick(&fill)); } }, '?' => s.push(*rng.pick(&fill)), c => s.push(c) }
+  }
+  s
+}
+
+// pattern lists whose members are related: one pattern is a generalisation / specialisation of another
+fn related_patterns(rng: &mut Rng, names: &[String]) -> Vec<String> {
+  let base: String = if !names.is_empty() && rng.chance(2, 3) { rng.pick(names).clone() } else { rng.pick(&NAMES).to_string() };
+  let cs: Vec<char> = base.chars().collect();
+  if cs.len() < 4 { return vec![base]; }
+  let mut pats = vec![];
+  for _ in 0..rng.range(2, 3) {
+    let mut p: Vec<char> = cs.clone();
+    for _ in 0..rng.range(1, 3) {
+      if p.is_empty() { break; }
+      let i = rng.below(p.len());
+      match rng.below(3) { 0 => p[i] = '?', 1 => { let j = std::cmp::min(p.len(), i + rng.range(1, 4)); p.splice(i..j, std::iter::once('*')); }, _ => { p.truncate(i + 1); p.push('*'); } }
+    }
+    let s: String = p.into_iter().collect();
+    if !s.is_empty() && !s.starts_with('-') { pats.push(s); }
+  }
+  pats
+}
+
 fn check_exclusion_hooks(per_entry: &[Option<(String, String, bool)>], excludes: &[String], text: &str, out: &mut ShardOut) {
   let pats: Vec<&str> = excludes.iter().map(|s| s.as_str()).collect();
   let kbs: Vec<ExtractedKeyboard> = per_entry.iter().flatten().map(|d| ExtractedKeyboard { dev_path: PathBuf::from(&d.0), name: d.1.clone() }).collect();
@@ -398,6 +427,16 @@ pub fn run(opts: &Opts) -> i32 {
     let names: Vec<String> = per_entry.iter().flatten().map(|d| d.1.clone()).collect();
     let excludes = gen_excludes(&mut rng, &names);
     check_exclusion_hooks(&per_entry, &excludes, &g.text, &mut out);
+    // related patterns against names instantiated from each of them (a name that only one pattern of the list matches
+    // shows whether every pattern of the list is applied)
+    if i % 3 == 0 {
+      let pats = related_patterns(&mut rng, &names);
+      let mut synth: Vec<Option<(String, String, bool)>> = vec![];
+      for (j, p) in pats.iter().enumerate() { for k in 0..3 { synth.push(Some((format!("/devices/synthetic/input/input{}", j * 3 + k), instantiate(p, &mut rng), true))); } }
+      for n in names.iter().take(3) { synth.push(Some(("/devices/synthetic/input/inputN".to_string(), n.clone(), true))); }
+      out.count("related_pattern_lists");
+      check_exclusion_hooks(&synth, &pats, &g.text, &mut out);
+    }
     if let Some(ns) = &ns {
       if i % e2e_every == 0 {
         check_end_to_end(ns, &bin, &g, &per_entry, &excludes, &mut out);
